@@ -5,9 +5,12 @@ pub mod c04;
 pub mod c05;
 pub mod c10;
 pub mod c11;
+pub mod c12;
+pub mod c13;
+pub mod c14;
 
 use crate::driver::Prop;
 
 pub fn all() -> Vec<&'static Prop> {
-    vec![&c01::PROP, &c02::PROP, &c03::PROP, &c04::PROP, &c05::PROP, &c10::PROP, &c11::PROP]
+    vec![&c01::PROP, &c02::PROP, &c03::PROP, &c04::PROP, &c05::PROP, &c10::PROP, &c11::PROP, &c12::PROP, &c13::PROP, &c14::PROP]
 }
